@@ -5,6 +5,7 @@
 #include <cstdio>
 #include <functional>
 #include <sstream>
+#include <thread>
 
 namespace A {
 
@@ -424,28 +425,46 @@ bool exec_str_b(Ctx &c, const Op &op) {
     }
     case S_SINKS: {
         // ST::writef / operator<< into a standard stream that allocates while it is written to (a string stream), with and without exceptions(badbit),
-        // short and very long padding runs.  Under an allocation fault - the library's own allocation or the sink's, made on the library's behalf -
-        // the failure must reach the caller one way or the other (std::bad_alloc, or badbit on the stream) and nothing may leak (teardown ledger).
+        // and ST::printf into a FILE* (memory stream); short and very long padding runs.  Two kinds of fault:
+        //  - an allocation fault - the library's own allocation or the sink's, made on the library's behalf: the failure must reach the caller one way
+        //    or the other (std::bad_alloc, or badbit on the stream) and nothing may leak (teardown ledger);
+        //  - a data fault: the call is made with one argument too few, so it throws after it has produced part of its output.
+        // Either way the sink is the caller's object: its formatting state is what it was, and the FILE* is not left locked.
         StrObj *x = pick_str_wf(c, op.a);
         if (!x) { c.skipped = true; return true; }
-        const bool wide = op.b & 1, exc = op.b & 2; const unsigned fmt = (op.b >> 2) % 6;
+        const unsigned sink = op.b % 3; const bool wide = sink == 1, file = sink == 2, exc = (op.b >> 2) & 1; const unsigned fmt = (op.b >> 3) % 6;
+        const bool missing = (op.fault & F_CORRUPT) != 0;
         static const char *const F[6] = {"{}|{>200}|{}", "{<70_*}{>130}", "{}", "[{>12}] [{<300_-}] {x}", "{}|{}|{&3}{&2}", "{&3}{}{&2}"};
-        note_sig(c, op, std::string("obj=") + cl(x) + (wide ? ",wide" : ",narrow") + (exc ? ",exceptions" : "") + ",fmt=" + std::to_string(fmt));
+        const char *f = missing ? "{}|{>20}|{}|{}|{}" : F[fmt];
+        note_sig(c, op, std::string("obj=") + cl(x) + (wide ? ",wide" : file ? ",FILE" : ",narrow") + (exc ? ",exceptions" : "") + ",fmt=" + std::to_string(fmt) + (missing ? ",missing_arg" : ""));
         c.budget_bytes = x->model.size() * 16 + 4096;
         as_const(x);
         std::ostringstream os; std::wostringstream ws;
         if (exc) { os.exceptions(std::ios_base::badbit); ws.exceptions(std::ios_base::badbit); }
+        // the owner's formatting state (as std::cerr or a log stream carries it)
+        if (op.c & 1) { os.setf(std::ios_base::unitbuf); ws.setf(std::ios_base::unitbuf); }
+        if (op.c & 2) { os.setf(std::ios_base::hex, std::ios_base::basefield); ws.setf(std::ios_base::showbase | std::ios_base::uppercase); }
+        if (op.c & 4) { os.precision(3); ws.precision(9); os.fill('.'); ws.fill(L'_'); }
+        const auto fl8 = os.flags(); const auto flw = ws.flags(); const auto pr8 = os.precision(), prw = ws.precision(); const char fi8 = os.fill(); const wchar_t fiw = ws.fill();
+        char *mbuf = nullptr; size_t mlen = 0; FILE *fp = file ? open_memstream(&mbuf, &mlen) : nullptr;
         // text arguments of strictly increasing length (formats 4 and 5): each text fragment of one call is longer than every earlier one
         TempStr twice(x->model + x->model), thrice(x->model + x->model + x->model + "!");
         ExcKind ex = run_sut(c, op, [&] {
             const S &s = *x->p();
-            if (fmt >= 4) { if (wide) ST::writef(ws, F[fmt], s, *twice.p, *thrice.p); else ST::writef(os, F[fmt], s, *twice.p, *thrice.p); }
-            else if (wide) { ST::writef(ws, F[fmt], s, op.c, s); ws << s; } else { ST::writef(os, F[fmt], s, op.c, s); os << s; }
+            if (file) { if (fp) { if (fmt >= 4 || missing) ST::printf(fp, f, s, *twice.p, *thrice.p); else ST::printf(fp, f, s, op.c, s); } }
+            else if (fmt >= 4 || missing) { if (wide) ST::writef(ws, f, s, *twice.p, *thrice.p); else ST::writef(os, f, s, *twice.p, *thrice.p); }
+            else if (wide) { ST::writef(ws, f, s, op.c, s); ws << s; } else { ST::writef(os, f, s, op.c, s); os << s; }
         });
         // reported through the stream by the standard library (badbit); with exceptions(badbit) libstdc++ rethrows the *original* exception, so even
         // then it is std::bad_alloc that reaches the caller - std::ios_base::failure in its place is somebody else's doing
-        if (c.fired && ex == EX_NONE && (wide ? ws.bad() : os.bad())) ex = EX_BAD_ALLOC;
-        settle(c, op, ex, 0);
+        // (with both faults at once the swallowed allocation failure shows as badbit and the call goes on to throw for the missing argument)
+        if (c.fired && (ex == EX_NONE || (missing && ex == EX_OUT_OF_RANGE)) && !file && (wide ? ws.bad() : os.bad())) ex = EX_BAD_ALLOC;
+        bool state_kept = os.flags() == fl8 && ws.flags() == flw && os.precision() == pr8 && ws.precision() == prw && os.fill() == fi8 && ws.fill() == fiw;
+        bool unlocked = true;
+        if (fp) { std::thread other([&] { if (ftrylockfile(fp) == 0) funlockfile(fp); else unlocked = false; }); other.join(); if (unlocked) std::fclose(fp); std::free(mbuf); }
+        settle(c, op, ex, missing ? bit(EX_OUT_OF_RANGE) : 0);
+        if (!state_kept) set_viol(c, "state_changed_after_throw", ex == EX_NONE ? "the stream's formatting state (flags / precision / fill) is not what it was before the call" : "after the call threw, the stream's formatting state (flags / precision / fill) is not what it was before");
+        else if (!unlocked) set_viol(c, "state_changed_after_throw", "the FILE* is still locked by the calling thread after ST::printf returned or threw");
         return true;
     }
     case S_OSTREAM: {
